@@ -25,6 +25,9 @@ def run(ctx, replay):
     ctx.model_check("MCReplication", "MCReplication_thorough.cfg" if thorough else "MCReplication.cfg", timeout=1800)
     # the known findings are re-confirmed in the model: with leader tail loss the protocol violates the property
     ctx.model_check("MCReplication", "MCReplication_tail.cfg", expect="violation", timeout=600)
+    # before the repair 00fe1c5: an answer whose ack index differs from the sent index (follower write failure) left the
+    # channel ready: the follower silently lacks a position below the cursor and never catches up without another fault
+    ctx.model_check("MCReplication", "MCReplication_dev_noresync.cfg", expect="violation", timeout=600)
     tr = os.path.join(ctx.scratch, "repl.ndjson")
     scr = os.path.join(ctx.scratch, "scr-repl")
     os.makedirs(scr, exist_ok=True)
